@@ -14,7 +14,9 @@
     arguments (the value has no mutable state, poison.go l.20-25, l.77-101), so the statements
     are per message. *)
 From WM Require Import Base.Prelude Message.Model Message.Proofs Handler.RouterHandle Handler.RouterProofs
-  Handler.Poison Handler.PoisonProofs.
+  Handler.Poison Handler.PoisonProofs Handler.PoisonConc Handler.PoisonConcProofs
+  Handler.PoisonRetry Handler.PoisonRetryProofs.
+From WM Require Handler.Retry.
 
 (** PoisonQueue / PoisonQueueWithFilter yield a middleware iff the topic is non-empty *)
 Theorem C13_constructor_rejects_empty_topic : forall topic f,
@@ -216,6 +218,123 @@ Print Assumptions C13_ack_only_after_poison_publish.
 Print Assumptions C13_model_accepted.
 Print Assumptions C13_model_accepted_standalone.
 Print Assumptions C13_monitor_sound.
+
+(** ** messages in flight: ONE middleware value, any number of messages, any interleaving
+    (Handler/PoisonConc.v: one thread per message, one step per point where another goroutine
+    could interfere, locals only - the closure of poison.go l.77-101 captures nothing mutable) *)
+Section C13_inflight.
+  Context {M : Type} (txt : err -> N).
+
+  (** after ANY schedule - any interleaving, any prefix, any number of messages - every thread
+      is where it would be had it taken its own steps alone, and its projection of the global
+      event log is what it would have emitted alone *)
+  Theorem C13_inflight_any_prefix : forall cfg (jobs : nat -> job M) sched i,
+    threads (sys_run txt false cfg jobs sched) i = fst (solo txt cfg (jobs i) (count_occ Nat.eq_dec sched i))
+    /\ proj i (log (sys_run txt false cfg jobs sched)) = snd (solo txt cfg (jobs i) (count_occ Nat.eq_dec sched i)).
+  Proof. exact (conc_prefix txt). Qed.
+
+  (** N messages under any interleaving = N independent runs of the sequential model: result,
+      events and final message content of a message that took its (at most four) steps are
+      those of [poison] on its own inputs *)
+  Theorem C13_inflight_independent : forall cfg (jobs : nat -> job M) sched i,
+    4 <= count_occ Nat.eq_dec sched i ->
+    let j := jobs i in
+    let '(r, ev, mf) := poison txt cfg (j_ctx j) (j_msg j) (j_seen j) (j_h j) (j_pp j) in
+    threads (sys_run txt false cfg jobs sched) i = TDone r mf
+    /\ proj i (log (sys_run txt false cfg jobs sched)) = ev.
+  Proof. exact (conc_independent txt). Qed.
+
+  (** ... hence, inside a Router, trace and settlement of every message of the batch are those of
+      [in_router] on its own inputs *)
+  Theorem C13_inflight_in_router : forall cfg (jobs : nat -> job M) sched i pk pb,
+    4 <= count_occ Nat.eq_dec sched i ->
+    let j := jobs i in
+    j_seen j = seen_after (M:=M) (hs_pre (j_h j)) ->
+    exists r mf,
+      threads (sys_run txt false cfg jobs sched) i = TDone r mf
+      /\ in_router txt cfg (j_ctx j) (j_msg j) (j_h j) (j_pp j) pk pb
+         = (fst (handle pk pb (to_cr (hs_pre (j_h j)) r)),
+            splice (snd (handle pk pb (to_cr (hs_pre (j_h j)) r))) (proj i (log (sys_run txt false cfg jobs sched))),
+            r, mf).
+  Proof. exact (conc_in_router txt). Qed.
+End C13_inflight.
+
+(** the theorem is sensitive to exactly the absence of shared state: in the variant whose
+    salvage reads the error from a variable shared by all invocations, two messages and one
+    schedule suffice for a failed message to be reported as handled with nothing published *)
+Theorem C13_inflight_shared_variable_refuted :
+  let cfg := PC 10 None in
+  let txt := fun _ : err => 77%N in
+  4 <= count_occ Nat.eq_dec refute_sched 0
+  /\ threads (sys_run txt true cfg refute_jobs refute_sched) 0%nat = TDone (MRet [] None) (PM 6 [] (Some []))
+  /\ proj 0 (log (sys_run txt true cfg refute_jobs refute_sched)) = []
+  /\ poison_pubs (snd (fst (poison (M:=N) txt cfg no_ctx (PM 6 [] (Some [])) Unsettled (HS PreNone [] (HFail (EBase 30) [])) PPAccept))) <> [].
+Proof. exact conc_shared_refuted. Qed.
+Print Assumptions C13_inflight_any_prefix.
+Print Assumptions C13_inflight_independent.
+Print Assumptions C13_inflight_in_router.
+Print Assumptions C13_inflight_shared_variable_refuted.
+
+(** ** the real Retry middleware INSIDE the poison queue: PoisonQueue(Retry(h)) - composition of
+    C12's model [Retry.retry] with [poison] (Handler/PoisonRetry.v); for every Retry
+    configuration, handler script [h : nat -> (outputs, error id)], timing/select environment,
+    poison configuration, message and publisher behaviour *)
+Section C13_retry.
+  Context (txt : err -> N) (errof : N -> err).
+
+  (** some attempt succeeded: the FIRST success is passed on unchanged, nothing is poisoned *)
+  Theorem C13_retry_success_not_poisoned : forall cfg c0 m0 seen pre acts rc h env pp,
+    Retry.is_ok (Retry.r_out (Retry.retry rc h env)) = true ->
+    exists n, Retry.calls (Retry.r_trace (Retry.retry rc h env)) = seq 0 (S n)
+              /\ Retry.is_ok (h n) = true /\ (forall j, j < n -> Retry.is_ok (h j) = false)
+              /\ poison_retry txt errof cfg c0 m0 seen pre acts rc h env pp
+                 = (MRet (fst (h n)) None, [], fst (run_acts acts (m0, c0))).
+  Proof. exact (poison_retry_success txt errof). Qed.
+
+  (** with n+1 invocations made by Retry: poisoned EXACTLY WHEN all n+1 attempts failed and the
+      filter accepts the LAST error (and the message has a metadata map and a publisher exists);
+      then exactly one Publish of the stamped message whose reason is the LAST error's text, and
+      success is reported iff that publish was accepted *)
+  Theorem C13_retry_poisoned_exactly_when_all_attempts_failed :
+    forall cfg c0 m0 seen pre acts rc h env pp n,
+    Retry.calls (Retry.r_trace (Retry.retry rc h env)) = seq 0 (S n) ->
+    let m := fst (run_acts acts (m0, c0)) in
+    let c := snd (run_acts acts (m0, c0)) in
+    let le := errof (snd (h n)) in
+    let '(r, ev, mf) := poison_retry txt errof cfg c0 m0 seen pre acts rc h env pp in
+    (poison_pubs ev <> [] <->
+       (forall j, j <= n -> Retry.is_ok (h j) = false) /\ accepts cfg le = FYes
+       /\ pm_meta m <> None /\ pp <> PPNil)
+    /\ (forall md, (forall j, j <= n -> Retry.is_ok (h j) = false) -> accepts cfg le = FYes ->
+          pm_meta m = Some md -> pp <> PPNil ->
+          poison_pubs ev = [(pq_topic cfg, PM (pm_uuid m0) (pm_payload m) (Some (stamp c (txt le) md)))]
+          /\ ((exists o, r = MRet o None) <-> pp = PPAccept)).
+  Proof. exact (poison_retry_exactly txt errof). Qed.
+
+  (** inside a Router: Acked through poison(retry(h)) implies handled by some attempt, or all
+      attempts failed and the message is in the poison topic with the last error as reason *)
+  Theorem C13_retry_acked_implies_handled_or_poisoned : forall cfg c0 m0 acts rc h env pp pk pb,
+    let '(ms, tr, r, mf) := poison_retry_in_router txt errof cfg c0 m0 PreNone acts rc h env pp pk pb in
+    st ms = Acked ->
+    exists n, Retry.calls (Retry.r_trace (Retry.retry rc h env)) = seq 0 (S n)
+      /\ ((Retry.is_ok (h n) = true /\ (forall j, j < n -> Retry.is_ok (h j) = false) /\ poison_pubs (pproj tr) = [])
+          \/ ((forall j, j <= n -> Retry.is_ok (h j) = false)
+              /\ accepts cfg (errof (snd (h n))) = FYes /\ pp = PPAccept /\ pub_oks (pproj tr) = 1
+              /\ exists md, pm_meta (fst (run_acts acts (m0, c0))) = Some md
+                   /\ poison_pubs (pproj tr) =
+                        [(pq_topic cfg, PM (pm_uuid m0) (pm_payload (fst (run_acts acts (m0, c0))))
+                                           (Some (stamp (snd (run_acts acts (m0, c0))) (txt (errof (snd (h n)))) md)))])).
+  Proof. exact (poison_retry_router_acked txt errof). Qed.
+End C13_retry.
+Print Assumptions C13_retry_success_not_poisoned.
+Print Assumptions C13_retry_poisoned_exactly_when_all_attempts_failed.
+Print Assumptions C13_retry_acked_implies_handled_or_poisoned.
+
+(** the same schedule on the real semantics publishes message 0 *)
+Example C13_inflight_witness :
+  proj 0 (log (sys_run (fun _ => 77%N) false (PC 10 None) refute_jobs refute_sched))
+  = [PPublish 10 (PM 6 [] (Some [(1, 77); (2, 0); (3, 0); (4, 0)]%N)) Unsettled; PPublishRet true].
+Proof. exact conc_local_same_schedule. Qed.
 
 (** non-vacuity.  Redelivery of an already poisoned message (keys 1-4 present, key 9 foreign) to
     handler 22 on topic 21 of subscriber 23; the handler fails with a wrapped error whose text is
